@@ -172,3 +172,25 @@ func VH_C10_manyVisits() {
 	vAssert(s.visits == passes && a.visits == passes-1 && b.visits == passes-1 && t.visits == 1, "visit-order-equals-flattened-machine")
 	vCover("many-visits")
 }
+
+// ---- C13: a long-lived store: after more than a thousand effective deletions (maintenance thresholds:
+// compaction, rebuilds, background work) a Clear is still final — nothing it removed comes back,
+// whatever a goroutine left behind by an earlier operation does afterwards
+func VH_C13_manyDeletes() {
+	n := vParam("deletes", 1100)
+	s := NewSharedStore()
+	s.Set("b", 1)
+	s.Set("c", 2)
+	for i := 0; i < n; i++ {
+		s.Set("a", i)
+		s.Delete("a")
+	}
+	s.Clear()
+	vQuiesce() // let whatever the store left running finish
+	vAssert(s.Len() == 0 && !s.Has("b") && !s.Has("c"), "some-sequential-order-explains-both-results")
+	s.Set("d", 3)
+	vQuiesce()
+	v, ok := s.Get("d")
+	vAssert(ok && v == 3 && s.Len() == 1, "some-sequential-order-explains-both-results")
+	vCover("many-deletes")
+}
